@@ -74,19 +74,38 @@ def presentOf (described : List Nat) (rows : List (List Bool)) : Option Nat → 
       | none => false
     | none => false
 
+def getBoolRows (j : Json) (k : String) : Except String (List (List Bool)) := do
+  let rowsJ ← getArr j k
+  rowsJ.toList.mapM (fun v => do
+    let arr ← v.getArr?
+    arr.toList.mapM (fun x => match x with
+      | .bool t => pure t
+      | _ => throw "bool expected"))
+
 def handlers : List (String × Handler) := [
+  ("tileFrames", fun j => do
+    let ios ← getRatList j "ios"
+    let ps ← getRatList j "ps"
+    match ios, ps with
+    | [a, b, c, d, e, f], [p, q] =>
+      let described ← getNatList j "described"
+      let rows ← getBoolRows j "present"
+      let fs := tileFrames (← getV3 j "origin") ⟨a, b, c⟩ ⟨d, e, f⟩ p q (← getNat j "rows") (← getNat j "cols")
+        (← getNat j "tile_rows") (← getNat j "tile_cols") (← getBoolList j "flags") (← getBool j "omit")
+        (segmentsIterable (← getBool j "labelmap") described) (presentOf described rows)
+      pure (okJson (Json.arr (fs.map (fun fr => Json.mkObj [
+        ("seg", match fr.seg with | some s => (s : Json) | none => Json.null),
+        ("rc", intsToJson [fr.row, fr.col]),
+        ("pos", v3ToJson fr.pos),
+        ("div", intsToJson (match fr.seg with | some s => (s : Int) :: fr.div | none => fr.div))])).toArray))
+    | _, _ => throw "ios of 6 and ps of 2 expected"),
   ("segFrames", fun j => do
     let iop ← getRatList j "iop"
     match iop with
     | [a, b, c, d, e, f] =>
       let pos ← getV3List j "pos"
       let described ← getNatList j "described"
-      let rowsJ ← getArr j "present"
-      let rows ← rowsJ.toList.mapM (fun v => do
-        let arr ← v.getArr?
-        arr.toList.mapM (fun x => match x with
-          | .bool t => pure t
-          | _ => throw "bool expected"))
+      let rows ← getBoolRows j "present"
       let r := segFrames pos ⟨a, b, c⟩ ⟨d, e, f⟩ (← getBoolList j "flags") (← getBool j "omit")
         (segmentsIterable (← getBool j "labelmap") described) (presentOf described rows)
       pure (exceptToJson (fun (fs : List Frame) => Json.arr (fs.map (fun fr => Json.mkObj [
